@@ -1,4 +1,4 @@
-import IstioModel.C15.Recompute
+import IstioModel.C15.Resync
 
 /-!
 # C15 - property theorems
@@ -46,7 +46,8 @@ theorem inv_empty : Inv ({} : Ctl) := by
 def GoodStep (c : Ctl) : Op → Prop
   | .slice v =>
       WF { c with slices := upsertBy (fun x => x.ns = v.ns ∧ x.name = v.name) v c.slices } ∧
-      (∀ o ∈ c.slices, o.ns = v.ns → o.name = v.name → o.svc = v.svc ∧ o.fqdn = v.fqdn)
+      (∀ o ∈ c.slices, o.ns = v.ns → o.name = v.name → o.svc = v.svc ∧ o.fqdn = v.fqdn) ∧
+      WF c ∧ SliceKeepsWaiting c v
   | .delSlice _ _ => WF c
   | .svc v =>
       WF { c with svcs := upsertBy (fun x => x.ns = v.ns ∧ x.name = v.name) v c.svcs } ∧
@@ -71,7 +72,7 @@ def GoodStep (c : Ctl) : Op → Prop
 theorem handlers_preserve_inv (c : Ctl) (op : Op) (c' : Ctl)
     (hinv : Inv c) (hgood : GoodStep c op) (hstep : stepC c op = some c') : Inv c' := by
   cases op with
-  | slice v => exact slice_write_inv c v c' hstep hinv hgood.1 hgood.2
+  | slice v => exact slice_write_inv c v c' hstep hinv hgood.1 hgood.2.1
   | delSlice ns name => exact slice_delete_inv c ns name c' hstep hinv hgood
   | svc v => exact svc_write_inv c v c' hstep hinv hgood.1 hgood.2
   | delSvc ns name => exact svc_delete_inv c ns name c' hstep hinv hgood.1 hgood.2
@@ -97,6 +98,36 @@ theorem handlers_preserve_inv (c : Ctl) (op : Op) (c' : Ctl)
     simp only [stepC, Option.some.injEq] at hstep
     subst hstep
     exact hinv
+
+/-- the same steps keep `needResync` sound: registered means still waiting -/
+theorem handlers_preserve_resync (c : Ctl) (op : Op) (c' : Ctl)
+    (hs : ResyncSound c) (hgood : GoodStep c op) (hstep : stepC c op = some c') : ResyncSound c' := by
+  cases op with
+  | slice v => exact slice_write_sound c v c' hstep hs hgood.2.2.1 hgood.1 hgood.2.2.2
+  | delSlice ns name => exact slice_delete_sound c ns name c' hstep hs hgood
+  | svc v => exact svc_write_sound c v c' hstep hs
+  | delSvc ns name => exact svc_delete_sound c ns name c' hstep hs
+  | pod v =>
+    cases hgood.2.2.2 with
+    | inl hg => exact pod_write_sound c v c' hstep hs hgood.1 hg
+    | inr hg => exact pod_label_edit_sound c v c' hstep hs hg
+  | delPod ns name => exact pod_delete_sound c ns name c' hstep hs hgood.1 hgood.2.2.2
+  | node v =>
+    simp only [stepC, Option.some.injEq] at hstep
+    subst hstep
+    exact hs
+  | delNode name =>
+    simp only [stepC] at hstep
+    split at hstep
+    · simp only [Option.some.injEq] at hstep
+      subst hstep
+      exact hs
+    · cases hstep
+  | hold => exact absurd hgood (fun h => h)
+  | release =>
+    simp only [stepC, Option.some.injEq] at hstep
+    subst hstep
+    exact hs
 
 /-- every step of the history is good in the state in which it happens -/
 def AllGood : Ctl → List Op → Prop
@@ -145,5 +176,41 @@ theorem convergence_any_order (ops : List Op) (hgood : AllGood {} ops) : Inv (ru
   have hn := allGood_noHold ops {} hgood
   rw [(run_sync ops {} rfl rfl hn).1]
   exact runC_inv ops {} inv_empty hgood
+
+theorem runC_sound (ops : List Op) (c : Ctl) (hs : ResyncSound c) (hgood : AllGood c ops) : ResyncSound (runC c ops) := by
+  induction ops generalizing c with
+  | nil => exact hs
+  | cons o r ih =>
+    simp only [runC]
+    cases hst : stepC c o with
+    | none =>
+      simp only [Option.getD]
+      have := hgood.2
+      rw [hst] at this
+      exact ih c hs this
+    | some c' =>
+      simp only [Option.getD]
+      have := hgood.2
+      rw [hst] at this
+      exact ih c' (handlers_preserve_resync c o c' hs hgood.1 hst) this
+
+/-- **needResync_no_leak.**  After any good history, with the queue drained, `needResync` is exactly the
+    set of endpoints still waiting for a pod: an address is registered under a slice key if and only
+    if that slice is in the store and has the address on an endpoint whose targetRef pod is not in
+    the store.  Nothing stays behind for a pod that has arrived, for a removed address or for a
+    deleted slice. -/
+theorem needResync_no_leak (ops : List Op) (hgood : AllGood {} ops) :
+    (∀ a k, setContains (run {} ops).c.resync a k = true →
+      ∃ sl ∈ (run {} ops).c.slices, sl.key = k ∧ a ∈ parkedAddrs (run {} ops).c.pods sl) ∧
+    (∀ sl ∈ (run {} ops).c.slices, ∀ a ∈ parkedAddrs (run {} ops).c.pods sl,
+      setContains (run {} ops).c.resync a sl.key = true) := by
+  have hn := allGood_noHold ops {} hgood
+  refine ⟨?_, ?_⟩
+  · rw [(run_sync ops {} rfl rfl hn).1]
+    apply runC_sound ops {} _ hgood
+    intro a k h
+    simp [setContains, alookup] at h
+  · intro sl hsl a ha
+    exact (convergence_any_order ops hgood).parked sl hsl (fun hf => hf) a ha
 
 end IstioModel.C15
